@@ -111,7 +111,7 @@ def run_valueexec(ctx, exe, seeds, sigs, want):
             ctx.broken.append({"kind": "correspondence", "name": "decodeFrame vs real DecodeLockCommand",
                                "detail": f"{len(dis)} disagreements; first: op={d[1][:600]} impl={d[2][:300]} model={d[3][:300]}"})
     # observation, not a violation: the announced length is used for make() before it is checked against the frame
-    ctx.cov["alloc_before_check"] = {"frames_refused_after_allocating_64KiB_or_more": big,
+    ctx.cov["alloc_before_check"] = {"frames_refused_after_allocating_128KiB_or_more": big,
                                      "note": "DecodeLockCommand allocates dataLen+4 bytes (client-chosen, up to 4 GiB) before comparing dataLen with the frame"}
 
 
